@@ -3,6 +3,7 @@ package main
 // C07 — ReadOnlyFs: every mutator fails with a permission error, nothing done through the
 // wrapper or its handles changes the source, reads are transparent.
 import (
+	"os"
 	"fmt"
 	"strings"
 
@@ -148,6 +149,7 @@ func runC07(c *Ctx) {
 	}
 	c.Extra["flag_sweep"] = fmt.Sprintf("%d of 4096 combinations of 12 O_* bits (step %d)", k, step)
 	runOSBase(c, "C07")
+	runC07OverUnion(c)
 	for i := 0; i < n; i++ {
 		st := stacks[i%len(stacks)]
 		items := genC07(c.Rng.Fork(), st)
@@ -156,4 +158,57 @@ func runC07(c *Ctx) {
 			c.Sample("case " + st + ": " + strings.Join(items, " ; "))
 		}
 	}
+}
+
+// ReadOnlyFs over a source whose Open and OpenFile(O_RDONLY) are different code paths (a
+// CopyOnWriteFs with a directory present in both layers): every read through the wrapper equals
+// the same read on the source (oracle only)
+func runC07OverUnion(c *Ctx) {
+	base, layer := afero.NewMemMapFs(), afero.NewMemMapFs()
+	afero.WriteFile(base, "/x/from-base.txt", []byte("B"), 0o644)
+	afero.WriteFile(base, "/x/both.txt", []byte("base version"), 0o644)
+	afero.WriteFile(layer, "/x/from-layer.txt", []byte("L"), 0o644)
+	afero.WriteFile(layer, "/x/both.txt", []byte("layer"), 0o644)
+	src := afero.NewCopyOnWriteFs(base, layer)
+	n := 0
+	for depth := 1; depth <= 2; depth++ {
+		var w afero.Fs = src
+		for i := 0; i < depth; i++ {
+			w = afero.NewReadOnlyFs(w)
+		}
+		listing := func(fs afero.Fs, p string, how int) string {
+			var f afero.File
+			var err error
+			if how == 0 {
+				f, err = fs.Open(p)
+			} else {
+				f, err = fs.OpenFile(p, os.O_RDONLY, 0)
+			}
+			if err != nil {
+				return "err:" + errClass(err)
+			}
+			defer f.Close()
+			if how == 2 {
+				fis, err := f.Readdir(-1)
+				return listRes("infos", fisS(fis), len(fis), err)
+			}
+			names, err := f.Readdirnames(-1)
+			return listRes("names", namesS(names), len(names), err)
+		}
+		for _, p := range []string{"/", "/x", "/x/both.txt", "/nope"} {
+			for how := 0; how < 3; how++ {
+				n++
+				c.Count("overunion.listing")
+				if got, want := listing(w, p, how), listing(src, p, how); got != want {
+					c.Oracle("FAIL ou%d read-not-transparent:over-union name=%q how=%d (0 Open+Readdirnames, 1 OpenFile(O_RDONLY)+Readdirnames, 2 OpenFile+Readdir) depth=%d: through ReadOnlyFs %s, on the source %s", n, p, how, depth, got, want)
+				}
+			}
+			gb, ge := afero.ReadFile(w, p)
+			wb, we := afero.ReadFile(src, p)
+			if string(gb) != string(wb) || errClass(ge) != errClass(we) {
+				c.Oracle("FAIL ou%d read-not-transparent:over-union:ReadFile name=%q: %q,%v vs %q,%v", n, p, gb, ge, wb, we)
+			}
+		}
+	}
+	c.Extra["over_union"] = fmt.Sprintf("%d listings/reads through ReadOnlyFs over a CopyOnWriteFs with a directory in both layers (oracle only)", n)
 }
